@@ -24,7 +24,7 @@ ASSUMPTIONS = [
     "callback byte layouts are hand-written in vlib/refezsp.py from UG100 / EZSP v14 notes (cross-checked against C07's pins)",
     "ControllerApplication is constructed with the zigpy.util.Requests shim; zigpy's packet_received/handle_join/handle_leave "
     "are replaced by recorders on the instance (the zigpy side is not under test)",
-    "a departure reported together with a deny decision may yield a leave or nothing (statement gives no precedence)",
+    "a departure is reported as a leave whatever the decision field carries ('nothing for denied joins' is read as applying to joins)",
 ]
 
 OWN_NWK = 0x0000
@@ -135,11 +135,10 @@ def check(plan) -> Result:
     ieee = bytes.fromhex(plan["eui64"])
     left = plan["status"] == refezsp.DEVICE_LEFT
     deny = plan["decision"] == refezsp.DENY_JOIN
-    if left and deny:
-        ok = (not joins) and leaves in ([], [(plan["nwk"], ieee)])
-        if not ok:
-            r.bad("C13:left+deny-handled-wrongly", f"joins {joins} leaves {leaves}; plan {plan}")
-    elif left:
+    if left:
+        # a departure is not a join: it yields a leave whatever the decision field says
+        if deny:
+            r.cls("departure-with-deny-decision")
         if joins or leaves != [(plan["nwk"], ieee)]:
             r.bad(f"C13:departure-not-a-leave:{vt}", f"joins {joins} leaves {leaves}; plan {plan}")
     elif deny:
